@@ -54,6 +54,17 @@ static void os_futex_hook(int *uaddr, int op, int val);
 #else
 #define os_futex_hook(u, o, v) ((void) 0)
 #endif
+/* order of a wake-up: every waiter of liburcu re-tests its futex word after FUTEX_WAIT returns and goes back to sleep while the
+ * word still holds the sleep value (that is how spurious returns are absorbed).  A waker must therefore CHANGE the word first and
+ * call FUTEX_WAKE second; the other order lets the woken waiter re-read the sleep value and sleep for ever (nobody wakes twice). */
+#ifndef OS_FUTEX_SLEEP_VALUE
+#define OS_FUTEX_SLEEP_VALUE (-1)
+#endif
+#ifdef OS_FUTEX_NO_ORDER_CHECK
+#define os_futex_wake_check(u) ((void) 0)
+#else
+#define os_futex_wake_check(u) VERIF_ASSERT(*(volatile int *) (u) != OS_FUTEX_SLEEP_VALUE, "FUTEX_WAKE is issued only AFTER the futex word was changed away from the value the waiter sleeps on (store, then wake): a waiter woken first re-reads the sleep value and goes back to sleep for ever - lost wake-up")
+#endif
 #ifdef OS_JOIN_HOOK
 static void os_join_hook(void);
 #else
@@ -125,7 +136,7 @@ long syscall(long nr, ...)
 		int op = va_arg(ap, int);
 		int val = va_arg(ap, int);
 		va_end(ap);
-		if (op == 1 /* FUTEX_WAKE */) G_os_futex_wake++; else G_os_futex_wait++;
+		if (op == 1 /* FUTEX_WAKE */) { G_os_futex_wake++; os_futex_wake_check(uaddr); } else G_os_futex_wait++;
 		os_futex_hook(uaddr, op, val);
 		if (G_os_futex_ret < 0) errno = G_os_futex_errno;
 		return G_os_futex_ret;
@@ -151,7 +162,7 @@ long syscall(long nr, ...)
  * system call is futex route it through a fixed-arity twin of the stub above */
 static long verif_futex_call(int *uaddr, int op, int val)
 {
-	if (op == 1 /* FUTEX_WAKE */) G_os_futex_wake++; else G_os_futex_wait++;
+	if (op == 1 /* FUTEX_WAKE */) { G_os_futex_wake++; os_futex_wake_check(uaddr); } else G_os_futex_wait++;
 	os_futex_hook(uaddr, op, val);
 	if (G_os_futex_ret < 0) errno = G_os_futex_errno;
 	return G_os_futex_ret;
